@@ -95,7 +95,7 @@ pub fn build(ctl: &'static Ctrl, params: &Value) -> Instance {
                     }
                 }
                 End::Budget => v.push(Violation { kind: "livelock".into(), detail: "step budget exhausted".into() }),
-                End::Tool(_) => {}
+                End::Tool(_) | End::Aborted => {}
             }
             v
         }),
